@@ -26,7 +26,7 @@ CONFIG = dict(
     driver_root="Cell2v.Driver.C05",
     audit="Audit/C05.lean",
     required_theorems=["close_once", "owner_sequence", "owner_sees_remove", "reader_end_closes", "every_ending_closes",
-                       "any_thread_gone_all_released", "push_after_close_dropped", "unique_live_id",
+                       "any_thread_gone_all_released", "push_after_close_dropped", "parked_sender_released", "unique_live_id",
                        "d6_old_reader_leaks", "d15_message_after_remove"],
     harness_pkg="./c05",
     mode="diff",
@@ -43,7 +43,10 @@ CONFIG = dict(
          "with 1-6 packets incl. undecodable messages, heartbeats, kick packets, bad JSON, undecodable frames, empty frames, read errors, EOF; reader grants "
          "run-to-block or step-to-next-message with optional handshake-write failure; writer grants ok/fail; clock advances at and around the 10 s tick and the "
          "20 s expiry; direct and owner-side kicks; owner-side and direct pushes; owner drains; 2 % probably-disabled ops), then `end`; 1/12 of the cases start the "
-         "id counter at the 32-bit wrap; corpus of the D6/D15 witnesses and scripted coincidences first; tcp smoke run: whole connections against the real TCPAcceptor on 127.0.0.1 (valid packet "
+         "id counter at the 32-bit wrap; 1/25 of the cases may fill a send queue (non-reading client: writer parked in Write, 9999 pushes, heartbeat tick parks in its send) and then run every "
+         "step as arm/go so that a process death leaves a replayable witness; 1/6 of the connections have a scripted panicking close callback; "
+         "corpus of the D6/D15 witnesses, scripted coincidences, full-queue and panicking-callback scenarios first; accept bursts (1, 2, 64, random) through the real "
+         "pomelo.StartAcceptor over a fake acceptor with a pre-filled connection channel, one P; tcp smoke run: whole connections against the real TCPAcceptor on 127.0.0.1 (valid packet "
          "prefixes, then nothing / truncated header / invalid type / short body / oversize announcement, then FIN), final callback logs, socket closed, goroutines "
          "released; one evaluation = one grant compared with the model; "
          "non-trivial = every enabled grant; distinct = distinct (op, observation) pairs",
@@ -57,7 +60,9 @@ CONFIG = dict(
         "harness canonicalisation: per-connection logs, sorted live ids, goroutine count as a delta to the start of the case",
     ],
     assumptions=[
-        "fewer than 9999 queued writes per session and fewer than 999 queued owner tasks (no blocking channel send)",
+        "application pushes never find the 9999-slot send queue full (they would park the owner goroutine); the heartbeat's send on a full queue IS modelled "
+        "(it parks; while parked the session cannot expire); fewer than 999 queued owner tasks",
+        "close callbacks may panic (the scheduler recovers): a panicking handler callback ends RemoveSession before the sessions' own close callback",
         "fewer than 2^32-2 sessions are accepted during the lifetime of any live session (allocator guard of unique_live_id)",
         "the client does not pipeline data before the owner processed session-add (otherwise ClientMsg.SessionId is 0; not part of the predicate)",
         "conn.Close(), OnSessionCreate/OnSessionClose/ProcessMessage of the Impl and the owner's scheduler Post do not block",
